@@ -127,7 +127,7 @@ def run(chk):
             w.members["df.columns"] = set(cols)
             calls = []
 
-            def _ip(frame, columns=None, **k):
+            def _ip(frame, columns=None, *a, **k):     # further (optional) arguments do not matter here
                 calls.append((canon(frame), list(columns) if columns is not None else None))
                 return Sym(w, "call", sym_root(w, "interpolate"), (frame,), ())
             me = AbsObj({"_HourlyData"}, _kwargs=({"to_be_interpolated_columns": list(custom)} if custom else {}), _outputs=["temperature", "observed"], _to_be_interpolated_columns=None)
